@@ -1,4 +1,5 @@
 use crate::{report::Report, Ctx};
+pub mod c18;
 pub mod c19;
 pub mod child;
 pub mod c05;
@@ -16,6 +17,7 @@ pub fn run(prop: &str, ctx: &Ctx) -> Option<Report> {
         "C15" => c15::run(ctx),
         "C16" => c16::run(ctx),
         "C17" => c17::run(ctx),
+        "C18" => c18::run(ctx),
         "C19" => c19::run(ctx),
         _ => return None,
     })
